@@ -168,7 +168,14 @@ func (m *mon) principalView(ctx sdk.Context, p *chain.Account) view {
 	}
 	for _, d := range m.allDenoms {
 		if md, err := app.TokenFactoryKeeper.GetAuthorityMetadata(ctx, d); err == nil && md.Admin == p.Bech {
-			v.put("denom-admin/"+d, fmt.Sprint("supply=", app.BankKeeper.GetSupply(ctx, d).Amount))
+			bm, _ := app.BankKeeper.GetDenomMetaData(ctx, d)
+			maps := ""
+			for _, ch := range m.w.Chains {
+				if e, err := app.SkywayKeeper.GetERC20OfDenom(ctx, ch, d); err == nil && e != nil {
+					maps += ch + "=" + e.GetAddress().Hex() + ";"
+				}
+			}
+			v.put("denom-admin/"+d, fmt.Sprint("supply=", app.BankKeeper.GetSupply(ctx, d).Amount, " meta=", bm.String(), " bridged=", maps))
 		}
 	}
 	if lic, err := app.PalomaKeeper.GetLightNodeClientLicense(ctx, p.Bech); err == nil && lic != nil {
